@@ -1,7 +1,413 @@
-//! HTTP clients, TLS, CLI: added per property.
-use crate::exec::CaseResult;
-use crate::text::SExp;
+//! HTTP clients against the scripted loopback server (C11).
+use std::io::Read;
+use std::time::Duration;
 
-pub fn exec8(_prop: &str, _op: &str, _line: &str, _args: &[SExp]) -> Option<CaseResult> {
-    None
+use ipp::prelude::*;
+
+use crate::exec::*;
+use crate::httpd::*;
+use crate::text::*;
+
+fn badarg(line: &str, why: &str) -> CaseResult {
+    CaseResult { line: line.to_string(), result: format!("(bad-arg {})", why), oracle: None, class: "bad-arg".into() }
+}
+
+pub fn exec8(prop: &str, op: &str, line: &str, args: &[SExp]) -> Option<CaseResult> {
+    Some(match op {
+        "send" => op_send(line, args),
+        "send_many" => op_send_many(line, args),
+        _ => return crate::exec9::exec9(prop, op, line, args),
+    })
+}
+
+pub fn runtime() -> &'static tokio::runtime::Runtime {
+    static RT: std::sync::OnceLock<tokio::runtime::Runtime> = std::sync::OnceLock::new();
+    RT.get_or_init(|| tokio::runtime::Builder::new_multi_thread().worker_threads(4).enable_all().build().unwrap())
+}
+
+pub struct Cfg {
+    pub headers: Vec<(String, String)>,
+    pub auth: Option<(String, String)>,
+    pub timeout_ms: Option<u64>,
+}
+
+fn find_list<'a>(args: &'a [SExp], head: &str) -> Option<&'a [SExp]> {
+    args.iter().filter_map(|a| a.list()).find(|l| l.first().and_then(|x| x.atom()) == Some(head))
+}
+
+fn hexs(e: Option<&SExp>) -> Option<String> {
+    String::from_utf8(unhex(e?.atom()?)?).ok()
+}
+
+pub fn read_cfg(l: &[SExp]) -> Option<Cfg> {
+    let mut cfg = Cfg { headers: vec![], auth: None, timeout_ms: None };
+    for e in &l[1..] {
+        let x = e.list()?;
+        match x.first()?.atom()? {
+            "h" => cfg.headers.push((hexs(x.get(1))?, hexs(x.get(2))?)),
+            "auth" => cfg.auth = Some((hexs(x.get(1))?, hexs(x.get(2))?)),
+            "timeout" => cfg.timeout_ms = x.get(1)?.atom()?.parse().ok(),
+            _ => return None,
+        }
+    }
+    Some(cfg)
+}
+
+pub fn read_reply(l: &[SExp]) -> Option<Reply> {
+    let status: u16 = l.get(1)?.atom()?.parse().ok()?;
+    let framing = match l.get(2)?.atom()? {
+        "cl" => Framing::ContentLength,
+        "chunked" => Framing::Chunked,
+        "close" => Framing::Close,
+        _ => return None,
+    };
+    let body = unhex(l.get(3)?.atom()?)?;
+    let mut r = Reply { status, framing, body, fragments: vec![], cut_at: None, stall: None };
+    for e in &l[4..] {
+        let x = e.list()?;
+        match x.first()?.atom()? {
+            "frags" => r.fragments = x[1..].iter().map(|a| a.atom().and_then(|s| s.parse().ok())).collect::<Option<Vec<usize>>>()?,
+            "cut" => r.cut_at = x.get(1)?.atom()?.parse().ok(),
+            "stall" => r.stall = Some(Duration::from_millis(x.get(1)?.atom()?.parse().ok()?)),
+            _ => return None,
+        }
+    }
+    Some(r)
+}
+
+pub enum SendOutcome {
+    Ok(IppHeader, IppAttributes, Vec<u8>),
+    Status(u16),
+    Other(String),
+}
+
+fn classify(e: IppError) -> SendOutcome {
+    match e {
+        IppError::RequestError(c) => SendOutcome::Status(c),
+        IppError::ClientError(ureq::Error::Status(c, _)) => SendOutcome::Status(c),
+        e => SendOutcome::Other(format!("{}", e)),
+    }
+}
+
+pub fn apply_cfg<T>(mut b: ipp::client::IppClientBuilder<T>, cfg: &Cfg) -> ipp::client::IppClientBuilder<T> {
+    for (k, v) in &cfg.headers {
+        b = b.http_header(k, v);
+    }
+    if let Some((u, p)) = &cfg.auth {
+        b = b.basic_auth(u, p);
+    }
+    if let Some(t) = cfg.timeout_ms {
+        b = b.request_timeout(Duration::from_millis(t));
+    }
+    b
+}
+
+pub fn send_blocking(uri: Uri, cfg: &Cfg, req: IppRequestResponse) -> SendOutcome {
+    let client = apply_cfg(IppClient::builder(uri), cfg).build();
+    match client.send(req) {
+        Ok(resp) => {
+            let h = resp.header().clone();
+            let a = resp.attributes().clone();
+            let mut rest = vec![];
+            let mut p = resp.into_payload();
+            match Read::read_to_end(&mut p, &mut rest) {
+                Ok(_) => SendOutcome::Ok(h, a, rest),
+                Err(e) => SendOutcome::Other(format!("payload: {}", e)),
+            }
+        }
+        Err(e) => classify(e),
+    }
+}
+
+pub fn send_async(uri: Uri, cfg: &Cfg, req: IppRequestResponse) -> SendOutcome {
+    let client = apply_cfg(AsyncIppClient::builder(uri), cfg).build();
+    runtime().block_on(async move {
+        match client.send(req).await {
+            Ok(resp) => {
+                use futures_util::io::AsyncReadExt;
+                let h = resp.header().clone();
+                let a = resp.attributes().clone();
+                let mut rest = vec![];
+                let mut p = resp.into_payload();
+                match AsyncReadExt::read_to_end(&mut p, &mut rest).await {
+                    Ok(_) => SendOutcome::Ok(h, a, rest),
+                    Err(e) => SendOutcome::Other(format!("payload: {}", e)),
+                }
+            }
+            Err(e) => classify(e),
+        }
+    })
+}
+
+pub fn show_outcome(o: &SendOutcome) -> String {
+    match o {
+        SendOutcome::Ok(h, a, rest) => {
+            let (m, _) = unbuild(h, a, false);
+            format!("(ok {} rest={})", show_msg(&m), hex(rest))
+        }
+        SendOutcome::Status(c) => format!("(err status {})", c),
+        SendOutcome::Other(_) => "(err other)".into(),
+    }
+}
+
+pub fn show_captured(caps: &[Captured]) -> String {
+    match caps.first() {
+        None => format!("(none) n={}", caps.len()),
+        Some(c) => {
+            let get = |k: &str| c.headers.iter().filter(|h| h.0 == k).map(|h| h.1.clone()).collect::<Vec<_>>();
+            let ct = get("content-type").join(",");
+            let auth = get("authorization");
+            let mut custom: Vec<(String, String)> = c.headers.iter().filter(|h| h.0.starts_with("x-")).cloned().collect();
+            custom.sort();
+            format!(
+                "({} {} ct={} auth={} custom=({}) body={} complete={}) n={}",
+                c.method,
+                hex(c.target.as_bytes()),
+                hex(ct.as_bytes()),
+                if auth.is_empty() { "~".to_string() } else { hex(auth.join(",").as_bytes()) },
+                custom.iter().map(|(k, v)| format!("({} {})", hex(k.as_bytes()), hex(v.as_bytes()))).collect::<Vec<_>>().join(" "),
+                hex(&c.body),
+                c.complete as u8,
+                caps.len()
+            )
+        }
+    }
+}
+
+/// `send CLIENT MSG PAYLOAD (cfg …) (target PATHQ) (srv STATUS FRAMING BODY …)`
+fn op_send(line: &str, args: &[SExp]) -> CaseResult {
+    let client = args.first().and_then(|a| a.atom()).unwrap_or("").to_string();
+    let m = match args.get(1).and_then(read_msg) {
+        Some(m) => m,
+        None => return badarg(line, "msg"),
+    };
+    let payload = match args.get(2).and_then(|a| a.atom()).and_then(unhex) {
+        Some(p) => p,
+        None => return badarg(line, "payload"),
+    };
+    let cfg = match find_list(args, "cfg").and_then(read_cfg) {
+        Some(c) => c,
+        None => return badarg(line, "cfg"),
+    };
+    let pathq = match find_list(args, "target").and_then(|l| hexs(l.get(1))) {
+        Some(p) => p,
+        None => return badarg(line, "target"),
+    };
+    let reply = match find_list(args, "srv").and_then(read_reply) {
+        Some(r) => r,
+        None => return badarg(line, "srv"),
+    };
+    let mut req = match build(&m) {
+        Some(r) => r,
+        None => return badarg(line, "group-tag"),
+    };
+    let (listing, _) = unbuild(req.header(), req.attributes(), true);
+    let want_body = {
+        let mut b = req.to_bytes().to_vec();
+        b.extend_from_slice(&payload);
+        b
+    };
+    // payload delivered by a fragmenting blocking source
+    let chunks: Vec<crate::sources::Ev> = payload.chunks(7).map(|c| crate::sources::Ev::Data(c.to_vec())).collect();
+    *req.payload_mut() = IppPayload::new(crate::sources::Script::new(chunks, false));
+    let server = Server::start(vec![reply.clone()]);
+    let uri: Uri = match format!("ipp://127.0.0.1:{}{}", server.port, pathq).parse() {
+        Ok(u) => u,
+        Err(_) => {
+            server.finish();
+            return badarg(line, "uri");
+        }
+    };
+    let t0 = std::time::Instant::now();
+    let outcome = match client.as_str() {
+        "blocking" => send_blocking(uri, &cfg, req),
+        "async" => send_async(uri, &cfg, req),
+        _ => {
+            server.finish();
+            return badarg(line, "client");
+        }
+    };
+    let elapsed = t0.elapsed();
+    let caps = server.finish();
+    // effective line: the request message with its listing
+    let mut eff = format!("send {} {} {}", client, show_msg(&listing), hex(&payload));
+    for a in &args[3..] {
+        eff.push(' ');
+        eff.push_str(&show_sexp(a));
+    }
+    let result = format!("req={} resp={}", show_captured(&caps), show_outcome(&outcome));
+    // direct oracles
+    let mut oracle = None;
+    if caps.len() != 1 {
+        oracle = Some(format!("the server saw {} requests, expected exactly one", caps.len()));
+    } else {
+        let c = &caps[0];
+        if c.method != "POST" {
+            oracle = Some(format!("HTTP method is {}", c.method));
+        } else if c.target != pathq && !(pathq.is_empty() && c.target == "/") {
+            oracle = Some(format!("request target `{}`, expected `{}`", c.target, pathq));
+        } else if !c.headers.iter().any(|h| h.0 == "content-type" && h.1 == "application/ipp") {
+            oracle = Some("Content-Type application/ipp missing".into());
+        } else if c.body != want_body {
+            oracle = Some(format!("request body has {} bytes, expected {} (encoded request {} + payload {})", c.body.len(), want_body.len(), want_body.len() - payload.len(), payload.len()));
+        } else {
+            for (k, v) in &cfg.headers {
+                if !c.headers.iter().any(|h| h.0 == k.to_ascii_lowercase() && &h.1 == v) {
+                    oracle = Some(format!("custom header {}: {} not on the wire", k, v));
+                }
+            }
+            if let Some((u, p)) = &cfg.auth {
+                let want = format!("Basic {}", b64(format!("{}:{}", u, p).as_bytes()));
+                if !c.headers.iter().any(|h| h.0 == "authorization" && h.1 == want) {
+                    oracle = Some("Basic credentials of the configured user and password not on the wire".into());
+                }
+            }
+        }
+    }
+    if oracle.is_none() {
+        let is_ok = matches!(outcome, SendOutcome::Ok(..));
+        let timed_out = match (reply.stall, cfg.timeout_ms) {
+            (Some(s), Some(t)) => s.as_millis() as u64 > t,
+            _ => false,
+        };
+        if (reply.status >= 400 || reply.cut_at.is_some() || timed_out) && is_ok {
+            oracle = Some(format!("a {} was returned as a success", if reply.status >= 400 { format!("HTTP status {}", reply.status) } else if timed_out { "timed-out exchange".to_string() } else { "response cut before the end of the attributes".to_string() }));
+        } else if timed_out && elapsed > Duration::from_secs(20) {
+            oracle = Some(format!("request timeout of {:?} ms took {:?}", cfg.timeout_ms, elapsed));
+        } else if reply.status < 300 && reply.cut_at.is_none() && !timed_out {
+            // the value returned is exactly the server's response
+            let expect = parsed_text(parse_flat(&reply.body)).0;
+            let got = show_outcome(&outcome);
+            if expect.starts_with("(ok") && got != expect {
+                oracle = Some(format!("returned {} but the server sent {}", clip(&got), clip(&expect)));
+            }
+        }
+    }
+    let class = format!("{}-{}-{:?}{}{}", client, reply.status, reply.framing, if reply.cut_at.is_some() { "-cut" } else { "" }, if reply.stall.is_some() { "-stall" } else { "" });
+    CaseResult { line: eff, result, oracle, class }
+}
+
+pub fn show_sexp(e: &SExp) -> String {
+    match e {
+        SExp::Atom(a) => a.clone(),
+        SExp::List(l) => format!("({})", l.iter().map(show_sexp).collect::<Vec<_>>().join(" ")),
+    }
+}
+
+pub fn b64(data: &[u8]) -> String {
+    const T: &[u8; 64] = b"ABCDEFGHIJKLMNOPQRSTUVWXYZabcdefghijklmnopqrstuvwxyz0123456789+/";
+    let mut out = String::new();
+    for c in data.chunks(3) {
+        let b = [c[0], *c.get(1).unwrap_or(&0), *c.get(2).unwrap_or(&0)];
+        let n = ((b[0] as u32) << 16) | ((b[1] as u32) << 8) | b[2] as u32;
+        out.push(T[(n >> 18) as usize & 63] as char);
+        out.push(T[(n >> 12) as usize & 63] as char);
+        out.push(if c.len() > 1 { T[(n >> 6) as usize & 63] as char } else { '=' });
+        out.push(if c.len() > 2 { T[n as usize & 63] as char } else { '=' });
+    }
+    out
+}
+
+/// `send_many CLIENT N`: N concurrent sends through one client; the server echoes each request-id
+fn op_send_many(line: &str, args: &[SExp]) -> CaseResult {
+    let client = args.first().and_then(|a| a.atom()).unwrap_or("").to_string();
+    let n: u32 = match args.get(1).and_then(|a| a.atom()).and_then(|s| s.parse().ok()) {
+        Some(n) => n,
+        None => return badarg(line, "n"),
+    };
+    let responder: std::sync::Arc<dyn Fn(&Captured) -> Reply + Send + Sync> = std::sync::Arc::new(|c: &Captured| {
+        // request-id is bytes 4..8 of the body; answer with the same id and an attribute carrying it
+        let id = if c.body.len() >= 8 { u32::from_be_bytes([c.body[4], c.body[5], c.body[6], c.body[7]]) } else { 0 };
+        let mut r = IppRequestResponse::new_response(IppVersion::v1_1(), StatusCode::SuccessfulOk, id);
+        r.attributes_mut().add(DelimiterTag::JobAttributes, IppAttribute::new("job-id", IppValue::Integer(id as i32)));
+        let mut body = r.to_bytes().to_vec();
+        body.extend_from_slice(format!("payload-{}", id).as_bytes());
+        let mut rep = Reply::ok(body);
+        rep.fragments = vec![5, 11, 3];
+        rep.framing = if id % 2 == 0 { Framing::Chunked } else { Framing::ContentLength };
+        rep
+    });
+    let server = Server::start_with(vec![], Some(responder));
+    let uri: Uri = format!("ipp://127.0.0.1:{}/printers/p", server.port).parse().unwrap();
+    let mk = |id: u32| {
+        let mut r = IppRequestResponse::new(IppVersion::v1_1(), Operation::GetJobAttributes, Some(uri.clone()));
+        r.header_mut().request_id = id;
+        r
+    };
+    let check = |id: u32, o: SendOutcome| -> bool {
+        match o {
+            SendOutcome::Ok(h, a, rest) => {
+                h.request_id == id
+                    && rest == format!("payload-{}", id).as_bytes()
+                    && a.groups_of(DelimiterTag::JobAttributes).next().and_then(|g| g.attributes().get("job-id")).map(|x| x.value() == &IppValue::Integer(id as i32)).unwrap_or(false)
+            }
+            _ => false,
+        }
+    };
+    let cfg = Cfg { headers: vec![], auth: None, timeout_ms: Some(20_000) };
+    let good: u32 = match client.as_str() {
+        "blocking" => {
+            let c = std::sync::Arc::new(apply_cfg(IppClient::builder(uri.clone()), &cfg).build());
+            let hs: Vec<_> = (1..=n)
+                .map(|id| {
+                    let c = c.clone();
+                    let req = mk(id);
+                    std::thread::spawn(move || match c.send(req) {
+                        Ok(resp) => {
+                            let h = resp.header().clone();
+                            let a = resp.attributes().clone();
+                            let mut rest = vec![];
+                            let mut p = resp.into_payload();
+                            let _ = Read::read_to_end(&mut p, &mut rest);
+                            SendOutcome::Ok(h, a, rest)
+                        }
+                        Err(e) => classify(e),
+                    })
+                })
+                .collect();
+            hs.into_iter().enumerate().map(|(i, h)| check(i as u32 + 1, h.join().unwrap_or(SendOutcome::Other("join".into()))) as u32).sum()
+        }
+        "async" => {
+            let c = std::sync::Arc::new(apply_cfg(AsyncIppClient::builder(uri.clone()), &cfg).build());
+            runtime().block_on(async {
+                let mut hs = vec![];
+                for id in 1..=n {
+                    let c = c.clone();
+                    let req = mk(id);
+                    hs.push(tokio::spawn(async move {
+                        match c.send(req).await {
+                            Ok(resp) => {
+                                use futures_util::io::AsyncReadExt;
+                                let h = resp.header().clone();
+                                let a = resp.attributes().clone();
+                                let mut rest = vec![];
+                                let mut p = resp.into_payload();
+                                let _ = AsyncReadExt::read_to_end(&mut p, &mut rest).await;
+                                SendOutcome::Ok(h, a, rest)
+                            }
+                            Err(e) => classify(e),
+                        }
+                    }));
+                }
+                let mut good = 0;
+                for (i, h) in hs.into_iter().enumerate() {
+                    if let Ok(o) = h.await {
+                        good += check(i as u32 + 1, o) as u32;
+                    }
+                }
+                good
+            })
+        }
+        _ => {
+            server.finish();
+            return badarg(line, "client");
+        }
+    };
+    let caps = server.finish();
+    let oracle = if good != n || caps.len() != n as usize {
+        Some(format!("{} of {} concurrent senders got their own response; the server saw {} requests", good, n, caps.len()))
+    } else {
+        None
+    };
+    CaseResult { line: line.into(), result: format!("own-response={} of {}", good, n), oracle, class: format!("{}-concurrent", client) }
 }
